@@ -1,15 +1,135 @@
 (* Properties_C23.v — C23: status-line parsing is correct and segmentation-independent.
-   Statements only; proofs live in RespparseProofs.v. *)
+   Statements only; proofs live in RespparseProofs.v.
+   Model: RespparseModel.v (Http::One::ResponseParser::parse and everything it runs);
+   [drive] is the callers' read loop, [step] one parse() call as the callers observe it,
+   [first_line] is parseResponseFirstLine, [parse_status] is ParseResponseStatus.
+   The grammar ([status_line], [is_delim], [is_phrase], [is_eol], [lit_http1], [lit_icy]) is
+   stated in RespparseProofs.v with explicit literals, independently of the generated tables. *)
 Require Import SquidV.Bytes SquidV.TokModel SquidV.RespparseModel SquidV.RespparseProofs.
 Require Import SquidV.gen.CharSets_gen SquidV.gen.RespTabs_gen.
 Local Open Scope N_scope.
 
+(* --- segmentation independence --- *)
 (* For every input, every way of cutting it into segments (empty segments included), both parser
-   modes and every header-size limit: the callers' read loop (append segment, parse(), keep
+   modes and every reply_header_max_size: the callers' read loop (append segment, parse(), keep
    remaining()) ends in the same outcome as one parse() of the whole input -- the same need-more
-   state and retained bytes, or the same accepted fields with the same unconsumed bytes, or the
-   same error codes. *)
+   state and retained bytes, or the same accepted fields (protocol, version, status, reason, header
+   block) with the same unconsumed bytes, or the same error codes. *)
 Theorem C23_segmentation_independent : forall relaxed limit segs, segs <> [] ->
   drive relaxed limit pst0 [] segs = step relaxed limit pst0 (concat segs).
 Proof. exact resp_parse_segmentation_independent. Qed.
 Print Assumptions C23_segmentation_independent.
+
+(* the same from any parser that is waiting for data with any retained bytes *)
+Theorem C23_segmentation_independent_resumed : forall relaxed limit s buf segs,
+  waiting_inv s -> segs <> [] ->
+  drive relaxed limit s buf segs = step relaxed limit s (buf ++ concat segs).
+Proof. exact drive_segmentation_independent. Qed.
+Print Assumptions C23_segmentation_independent_resumed.
+
+(* the two ingredients: definitive outcomes are stable under extension of the input, and a
+   need-more outcome is a checkpoint: re-parsing the retained bytes plus new data from the saved
+   state is the same as parsing the extended input from the start *)
+Theorem C23_outcomes_stable_and_checkpoints_commute : forall relaxed limit s b, waiting_inv s ->
+  (forall f rest, step relaxed limit s b = Done f rest ->
+     forall x, step relaxed limit s (b ++ x) = Done f (rest ++ x)) /\
+  (forall c st, step relaxed limit s b = Bad c st ->
+     forall x, step relaxed limit s (b ++ x) = Bad c st) /\
+  (forall s1 k, step relaxed limit s b = More s1 k ->
+     waiting_inv s1 /\ forall x, step relaxed limit s (b ++ x) = step relaxed limit s1 (k ++ x)).
+Proof. exact step_stable. Qed.
+Print Assumptions C23_outcomes_stable_and_checkpoints_commute.
+
+(* --- status code: exactly three digits, 100..599 --- *)
+Theorem C23_status_accepted_iff_three_digits_100_599 : forall relaxed b v r,
+  parse_status relaxed b = PSok v r <->
+  exists d1 d2 d3 dl, b = d1 :: d2 :: d3 :: dl :: r /\
+    is_digit d1 = true /\ is_digit d2 = true /\ is_digit d3 = true /\ is_delim relaxed dl = true /\
+    v = 100 * dval d1 + 10 * dval d2 + dval d3 /\ 100 <= v <= 599.
+Proof. exact parse_status_ok_iff. Qed.
+Print Assumptions C23_status_accepted_iff_three_digits_100_599.
+
+(* --- the status line is accepted iff it is grammatical, with the grammar's fields --- *)
+Theorem C23_status_line_accepted_iff_grammar : forall relaxed b s1 rest, lenN b < npos ->
+  (first_line relaxed first0 b = (1%Z, s1, rest) /\ p_stage s1 = SFirst) <->
+  (exists line proto major minor status reason,
+     b = line ++ rest /\ status_line relaxed line proto major minor status reason /\
+     s1 = accepted_state proto major minor status reason).
+Proof. exact status_line_accepted_iff_grammar. Qed.
+Print Assumptions C23_status_line_accepted_iff_grammar.
+
+(* at the level of parse(): an accepted reply head is HTTP/0.9 gatewaying or a grammatical status
+   line + header block + rest, with the grammar's fields *)
+Theorem C23_accepted_reply_shape : forall relaxed limit b f rest, lenN b < npos ->
+  step relaxed limit pst0 b = Done f rest ->
+  (no_magic_relation b /\ f = gateway_fields /\ rest = b) \/
+  (exists line proto major minor status reason block,
+     b = line ++ block ++ rest /\ status_line relaxed line proto major minor status reason /\
+     f_proto f = proto /\ f_major f = major /\ f_minor f = minor /\ f_status f = status /\
+     f_reason f = reason).
+Proof. exact accepted_reply_shape. Qed.
+Print Assumptions C23_accepted_reply_shape.
+
+(* a grammatical status line is never a syntax error; the parser reports its fields whatever the
+   header-block stage decides *)
+Theorem C23_grammatical_status_line_accepted :
+  forall relaxed limit line tail proto major minor status reason ok s rest,
+  lenN (line ++ tail) < npos ->
+  status_line relaxed line proto major minor status reason ->
+  parse relaxed limit pst0 (line ++ tail) = (ok, s, rest) ->
+  p_proto s = proto /\ p_major s = major /\ p_minor s = minor /\ p_status s = status /\
+  p_reason s = reason /\ p_completed s = true /\ p_code s <> sc_invalid_header /\
+  (p_stage s = SMime \/ p_stage s = SDone).
+Proof. exact grammatical_status_line_accepted. Qed.
+Print Assumptions C23_grammatical_status_line_accepted.
+
+(* --- anything not related to an HTTP/ICY prefix is an HTTP/0.9 body --- *)
+Theorem C23_non_http_prefix_is_http09 : forall relaxed limit b, no_magic_relation b ->
+  step relaxed limit pst0 b = Done gateway_fields b.
+Proof. exact non_http_prefix_is_http09. Qed.
+Print Assumptions C23_non_http_prefix_is_http09.
+
+Theorem C23_http09_only_for_non_http_prefix : forall relaxed b r s1 rest,
+  first_line relaxed first0 b = (r, s1, rest) -> p_stage s1 = SDone ->
+  no_magic_relation b /\ r = 1%Z /\ s1 = gateway09 first0 /\ rest = b.
+Proof. exact http09_only_for_non_http_prefix. Qed.
+Print Assumptions C23_http09_only_for_non_http_prefix.
+
+(* --- the regenerated tables are the sets and literals the grammar is stated with --- *)
+Theorem C23_tables_match_grammar :
+  resp_http1magic = lit_http1 /\ resp_icymagic = lit_icy /\ resp_crlf = [13; 10] /\
+  (forall relaxed c, delim relaxed c = is_delim relaxed c) /\
+  (forall c, resp_phraseChars c = is_phrase c) /\
+  sc_invalid_header = 600 /\ sc_header_too_large = 601 /\ sc_none = 0.
+Proof. exact tables_and_magics_spec. Qed.
+Print Assumptions C23_tables_match_grammar.
+
+(* --- the hypotheses are satisfiable / the statements are not vacuous --- *)
+(* "HTTP/1.1 200 OK\r\n" is a status line in both modes *)
+Example C23_ex_status_line : forall relaxed,
+  status_line relaxed [72;84;84;80;47;49;46;49;32;50;48;48;32;79;75;13;10] PHttp 1 1 200 [79;75].
+Proof.
+  intros relaxed.
+  apply (SL_http relaxed 49 32 50 48 48 32 [79;75] [13;10]);
+    try reflexivity; try (destruct relaxed; reflexivity); try (left; reflexivity).
+  cbv; split; discriminate.
+Qed.
+(* "HT" | "TP/1.0 404 Not" | " Found\r\nA: b\r\n\r\nxyz" : the loop accepts 1.0 404 "Not Found", block "A: b\r\n\r\n", rest "xyz" *)
+Example C23_ex_drive :
+  drive false 65536 pst0 [] [[72;84]; [84;80;47;49;46;48;32;52;48;52;32;78;111;116];
+                             [32;70;111;117;110;100;13;10;65;58;32;98;13;10;13;10;120;121;122]] =
+  Done {| f_proto := PHttp; f_major := 1; f_minor := 0; f_status := 404;
+          f_reason := [78;111;116;32;70;111;117;110;100]; f_mime := [65;58;32;98;13;10;13;10] |} [120;121;122].
+Proof. vm_compute. reflexivity. Qed.
+(* "<html>" has no relation to a magic; "HTT" has (it is a prefix: the parser waits) *)
+Example C23_ex_no_magic : no_magic_relation [60;104;116;109;108;62].
+Proof. repeat split. Qed.
+Example C23_ex_waits : step true 65536 pst0 [72;84;84] = More first0 [72;84;84].
+Proof. vm_compute. reflexivity. Qed.
+Example C23_ex_waiting_inv : waiting_inv pst0 /\ waiting_inv first0.
+Proof. split; right; right; reflexivity. Qed.
+(* a status outside 100..599 and a 2-digit status are rejected *)
+Example C23_ex_bad_status :
+  step false 65536 pst0 [72;84;84;80;47;49;46;49;32;54;48;48;32;88;13;10;13;10] = Bad 600 600 /\
+  step false 65536 pst0 [72;84;84;80;47;49;46;49;32;50;48;32;88;13;10;13;10] = Bad 600 20.
+Proof. split; vm_compute; reflexivity. Qed.
